@@ -1,7 +1,7 @@
 (* Proofs about the file handle state machine Model/FileIO.v: every call refines the byte-array file of Spec/FsSpec.v.
    Ghost state: L = the data blocks of the file in order, E = its extension blocks in order.  No device faults here
    (bad = fun _ => false); the allocator hands out blocks the file does not own yet, or refuses. *)
-From Coq Require Import ZArith List Bool Lia.
+From Coq Require Import ZArith List Bool Lia Permutation.
 From ADF Require Import CPrelude Proofs.BytesP Model.FileIO Proofs.FileIOL.
 Import ListNotations.
 Local Open Scope Z_scope.
@@ -2177,5 +2177,131 @@ Section Inv.
       destruct Hfin as (If & Rf). splits; try assumption.
       + rewrite F2. exact P2.
       + unfold fsize. rewrite F10, Hfh2. reflexivity.
+  Qed.
+
+  (* ---- the blocks a shrinking truncation hands to adfSetBlockFree (adfFileTruncateGetBlocksToRemove) are exactly the cut-off part of
+          the lists (C05) ---- *)
+  Lemma subZ_sub (l : list Z) b n : 0 <= b -> 0 <= n -> b + n <= len l -> subZ l b n = sub l b n.
+  Proof.
+    intros Hb Hn Hl. apply list_ext.
+    - rewrite subZ_length, sub_length by lia. reflexivity.
+    - intros i Hi. unfold len in Hi. rewrite subZ_length in Hi. rewrite nthZ_subZ by lia. rewrite nthZ_sub by lia. reflexivity.
+  Qed.
+
+  Lemma subZ_window (l : list Z) B a n : 0 <= a -> 0 <= n -> a + n <= 72 -> subZ (subZ l B 72) a n = subZ l (B + a) n.
+  Proof.
+    intros Ha Hn Hl. apply list_ext.
+    - rewrite !subZ_length. reflexivity.
+    - intros i Hi. unfold len in Hi. rewrite subZ_length in Hi. rewrite !nthZ_subZ by lia. f_equal. lia.
+  Qed.
+
+  Lemma skipn_split (l : list Z) b n : 0 <= b -> 0 <= n -> skipn (Z.to_nat b) l = sub l b n ++ skipn (Z.to_nat (b + n)) l.
+  Proof.
+    intros Hb Hn. unfold sub. replace (Z.to_nat (b + n)) with (Z.to_nat n + Z.to_nat b)%nat by lia. rewrite skipn_add. symmetry. apply firstn_skipn.
+  Qed.
+
+  (* the remaining extension blocks, from index j on: their data blocks, then the block itself *)
+  Lemma rest_exts_spec s1 L E : CB s1 L E -> forall fuel j, 0 <= j <= len E -> (Z.to_nat (len E - j) < fuel)%nat ->
+    exists r, rest_exts nobad fuel s1 (nthZ E j) j (len E) (len L) = Some r
+              /\ Permutation r (skipn (Z.to_nat (72 * (j + 1))) L ++ skipn (Z.to_nat j) E).
+  Proof.
+    intros C. pose proof C as (B & HL & Hc). pose proof (lenE_of s1 L E B) as HlE.
+    induction fuel as [|fuel IH]; intros j Hj Hf; [lia|]. cbn [rest_exts].
+    destruct (Z.eq_dec j (len E)) as [->|Hne].
+    - rewrite (nthZ_oob E (len E)) by lia. cbn [Z.leb Z.compare]. exists []. split; [reflexivity|].
+      rewrite (skipn_all2 E) by (unfold len; lia). rewrite app_nil_r.
+      rewrite skipn_all2; [constructor|]. assert (len L <= 72 * (len E + 1)) by (rewrite HlE; destruct (Z.ltb_spec (len L) 1); lia). unfold len in *. lia.
+    - assert (Hj2 : 0 <= j < len E) by lia.
+      assert (Hge : 2 <= nthZ E j) by (apply (b_ge2 _ _ _ B); apply in_or_app; right; apply in_E_nth; exact Hj2).
+      destruct (Z.leb_spec (nthZ E j) 0); [lia|]. rewrite (rd_ext_clean s1 L E j B Hc Hj2).
+      change (x_ext (enc_x L E j)) with (nthZ E (j + 1)).
+      destruct (IH (j + 1) ltac:(lia) ltac:(lia)) as (r & Hr & Hp). rewrite Hr.
+      eexists. split; [reflexivity|].
+      set (last := if j + 1 =? len E then if len L - MAXDB * (j + 1) =? MAXDB then MAXDB else len L mod MAXDB else MAXDB).
+      assert (HlenL : 72 * (len E) < len L <= 72 * (len E + 1)) by (rewrite HlE; destruct (Z.ltb_spec (len L) 1); lia).
+      assert (Hlast : last = Z.min 72 (len L - 72 * (j + 1)) /\ 0 < last <= 72).
+      { subst last. unfold MAXDB. destruct (Z.eqb_spec (j + 1) (len E)); [destruct (Z.eqb_spec (len L - 72 * (j + 1)) 72)|]; lia. }
+      destruct Hlast as (Hlv & Hlr).
+      change (x_tab (enc_x L E j)) with (subZ L (72 * (j + 1)) 72). rewrite subZ_window by lia. rewrite subZ_sub by lia.
+      replace (72 * (j + 1) + 0) with (72 * (j + 1)) by lia.
+      rewrite (skipn_split L (72 * (j + 1)) last) by lia.
+      assert (Hsk : skipn (Z.to_nat (72 * (j + 1) + last)) L = skipn (Z.to_nat (72 * (j + 1 + 1))) L).
+      { destruct (Z.eq_dec last 72) as [->|Hl72]; [f_equal; lia|]. rewrite !skipn_all2; [reflexivity|unfold len in *; lia|unfold len in *; lia]. }
+      rewrite Hsk.
+      assert (HskE : skipn (Z.to_nat j) E = nthZ E j :: skipn (Z.to_nat (j + 1)) E).
+      { rewrite nthZ_nth by lia. replace (Z.to_nat (j + 1)) with (S (Z.to_nat j)) by lia. apply skipn_cons_nth. unfold len in Hj2. lia. }
+      rewrite HskE. rewrite <- !app_assoc. apply Permutation_app_head.
+      cbn [app]. apply Permutation_cons_app. exact Hp.
+  Qed.
+
+  Theorem blocks_to_remove_exact s1 L E new : Inv s1 L E -> chg s1 = false -> 0 <= new < fsize s1 ->
+    exists rem, blocks_to_remove bs nobad s1 new = Some rem /\
+      Permutation rem (skipn (Z.to_nat (size2db new bs)) L ++ skipn (Z.to_nat (db2ext (size2db new bs))) E).
+  Proof.
+    intros I Hc Hn. pose proof I as (B & HL & _). pose proof (inv_cb s1 L E I Hc) as C. pose proof (lenE_of s1 L E B) as HlE.
+    pose proof (b_hdr _ _ _ B) as (_ & Htab & _ & _ & Hext).
+    set (n' := size2db new bs). set (x' := db2ext n').
+    assert (Hn'L : 0 <= n' <= len L) by (subst n'; rewrite HL; split; [apply size2db_nonneg; lia|apply size2db_mono; lia]).
+    assert (Hx'v : x' = if n' <? 1 then 0 else (n' - 1) / 72) by reflexivity.
+    assert (HxE : 0 <= x' <= len E) by (rewrite Hx'v, HlE; destruct (Z.ltb_spec n' 1); destruct (Z.ltb_spec (len L) 1); lia).
+    unfold blocks_to_remove. destruct (Z.ltb_spec (fsize s1) new); [lia|]. rewrite <- HL. fold n'. rewrite <- (b_nE _ _ _ B). fold x'.
+    destruct (Z.ltb_spec (len L + len E - (n' + x')) 1) as [Hnone|Hsome].
+    { (* nothing to give back *)
+      exists []. split; [reflexivity|]. assert (Hboth : n' = len L /\ x' = len E) by lia. destruct Hboth as (-> & ->).
+      rewrite !skipn_all2 by (unfold len; lia). constructor. }
+    destruct (Z.ltb_spec (len E) 1) as [HE0|HE1].
+    { (* no extension blocks at all *)
+      eexists. split; [reflexivity|]. assert (HEnil : E = []) by (destruct E; [reflexivity|unfold len in HE0; simpl in HE0; lia]). subst E.
+      assert (Hx0 : x' = 0) by (unfold len in HxE; simpl in HxE; lia). rewrite Hx0. cbn [skipn Z.to_nat]. rewrite app_nil_r.
+      assert (HL72 : len L <= 72) by (rewrite HlE in HE0; destruct (Z.ltb_spec (len L) 1); unfold len in *; simpl in *; lia).
+      rewrite Htab, subZ_window by lia. rewrite subZ_sub by lia. replace (0 + n') with n' by lia.
+      rewrite (skipn_split L n' (len L - n')) by lia. rewrite (skipn_all2 L) by (unfold len; lia). rewrite app_nil_r. apply Permutation_refl. }
+    assert (HlenL : 72 * (len E) < len L <= 72 * (len E + 1)) by (rewrite HlE; destruct (Z.ltb_spec (len L) 1); lia).
+    destruct (Z.ltb_spec x' 1) as [Hx0|Hx1].
+    - (* the header keeps all that stays: its tail goes, then every extension block *)
+      assert (Hxz : x' = 0) by lia. assert (Hn72 : n' <= 72) by (rewrite Hx'v in Hxz; destruct (Z.ltb_spec n' 1); lia).
+      rewrite Hext. destruct (rest_exts_spec s1 L E C (Z.to_nat (len E + 1)) 0 ltac:(lia) ltac:(lia)) as (r & Hr & Hp).
+      replace x' with 0 by lia. rewrite Hr. eexists. split; [reflexivity|].
+      rewrite Htab. unfold MAXDB. rewrite subZ_window by lia. rewrite subZ_sub by lia. replace (0 + n') with n' by lia.
+      rewrite (skipn_split L n' (72 - n')) by lia. replace (n' + (72 - n')) with (72 * (0 + 1)) by lia. rewrite <- app_assoc. apply Permutation_app_head. exact Hp.
+    - (* the last kept extension block loses its tail, then every later extension block goes *)
+      assert (Hxv : x' = (n' - 1) / 72 /\ 73 <= n') by (rewrite Hx'v in *; destruct (Z.ltb_spec n' 1); lia). destruct Hxv as (Hxv & Hn73).
+      assert (Cl : CBl s1 L E) by (split; [exact B|split; [rewrite HL; lia|exact Hc]]).
+      rewrite (read_ext_n_l s1 (set_cext s1 (Some zero_x)) L E (x' - 1) Cl eq_refl eq_refl)
+        by (unfold size2ext; rewrite <- HL, <- (b_nE _ _ _ B); lia).
+      cbn [negb]. unfold cx. cbn [cext set_cext]. change (x_ext (enc_x L E (x' - 1))) with (nthZ E (x' - 1 + 1)). replace (x' - 1 + 1) with x' by lia.
+      destruct (rest_exts_spec s1 L E C (Z.to_nat (len E + 1)) x' ltac:(lia) ltac:(lia)) as (r & Hr & Hp). rewrite Hr.
+      eexists. split; [reflexivity|]. unfold MAXDB.
+      change (x_tab (enc_x L E (x' - 1))) with (subZ L (72 * (x' - 1 + 1)) 72). replace (72 * (x' - 1 + 1)) with (72 * x') by lia.
+      destruct (Z.ltb_spec 0 (n' / 72)); [|lia]. destruct (Z.eqb_spec (n' mod 72) 0) as [Hm|Hm]; cbn [negb andb].
+      + (* the kept block is full *)
+        cbn [app]. assert (Hfull : n' = 72 * (x' + 1)) by lia. rewrite Hfull. exact Hp.
+      + destruct (Z.eqb_spec (n' - 72 * x') 72); [lia|].
+        set (lastD := if x' =? len E then if len L - 72 * x' =? 72 then 72 else len L mod 72 else 72).
+        assert (Hlast : lastD = Z.min 72 (len L - 72 * x')).
+        { subst lastD. destruct (Z.eqb_spec x' (len E)); [destruct (Z.eqb_spec (len L - 72 * x') 72)|]; lia. }
+        replace (n' mod 72 + 1 - 1) with (n' mod 72) by lia.
+        assert (Hcnt : lastD - (n' mod 72 + 1) + 1 = Z.min (len L) (72 * (x' + 1)) - n') by lia. rewrite Hcnt.
+        rewrite subZ_window by lia. replace (72 * x' + n' mod 72) with n' by lia. rewrite subZ_sub by lia.
+        set (cnt := Z.min (len L) (72 * (x' + 1)) - n').
+        rewrite (skipn_split L n' cnt) by (subst cnt; lia).
+        assert (Hsk : skipn (Z.to_nat (n' + cnt)) L = skipn (Z.to_nat (72 * (x' + 1))) L).
+        { subst cnt. destruct (Z.le_gt_cases (72 * (x' + 1)) (len L)); [f_equal; lia|]. rewrite !skipn_all2; [reflexivity|unfold len in *; lia|unfold len in *; lia]. }
+        rewrite Hsk. rewrite <- app_assoc. apply Permutation_app_head. exact Hp.
+  Qed.
+
+  Theorem fio_truncate_shrink_frees s L E al new ok s' rem al' : Inv s L E -> mw s = true -> 0 <= new < fsize s ->
+    fio_truncate bs ofs nobad s new al = (ok, s', rem, al') -> ok = true ->
+    Permutation rem (skipn (Z.to_nat (size2db new bs)) L ++ skipn (Z.to_nat (db2ext (size2db new bs))) E).
+  Proof.
+    intros I Hw Hnew Ht Hok. unfold fio_truncate in Ht. rewrite Hw in Ht. cbn [negb] in Ht.
+    destruct (Z.eqb_spec new (fsize s)); [lia|]. destruct (Z.ltb_spec (fsize s) new); [lia|].
+    destruct (flush_inv s L E I Hw) as (I1 & Hc1 & (_ & _ & _ & _ & _ & _ & Sfh & _) & _ & _).
+    remember (set_chg (fio_flush bs ofs s) false) as s1 eqn:Hs1. clear Hs1.
+    assert (Hf1 : fsize s1 = fsize s) by (unfold fsize; rewrite Sfh; reflexivity).
+    destruct (blocks_to_remove_exact s1 L E new I1 Hc1 ltac:(lia)) as (rem0 & Hrem & Hperm). rewrite Hrem in Ht.
+    destruct (seek_eof bs ofs nobad (set_fh s1 (set_h_size (fh s1) new))) as [[|] s2]; cbn [negb] in Ht.
+    - injection Ht as _ _ <- _. exact Hperm.
+    - injection Ht as <- _ _ _. discriminate.
   Qed.
 End Inv.
